@@ -52,6 +52,7 @@ class Gen:
                  allow_pauli_measure=True, keyed_channels=True, max_ops=10, leaf_bits_cap=8.0,
                  allow_subcircuits=False):
         self.allow_subcircuits = allow_subcircuits and allow_measure
+        self.product_clifford_gates = False     # set by a workload that routes such circuits to general simulators
         self.t = tape
         self.clifford_only = clifford_only
         self.allow_measure = allow_measure
@@ -144,6 +145,12 @@ class Gen:
             dim = a.dimension * b.dimension
             return cirq.MatrixGate(self._unitary_matrix(dim), qid_shape=(a.dimension, b.dimension)).on(a, b)
         if self.clifford_only:
+            if self.product_clifford_gates and self.t.chance(1, 10, "clifford-only-as-product-gate?"):
+                # a gate whose matrix is Clifford while the pieces it decomposes into are not (T-like phases
+                # around an ISWAP): not something a stabilizer simulator can run
+                self.features.add("clifford-only-as-product")
+                return cirq.PhasedISwapPowGate(phase_exponent=self._pick([0.25, -0.25, 0.75], "pisw-phase"),
+                                               exponent=self._pick([1, -1, 3], "pisw-exp")).on(a, b)
             g = self._pick([cirq.CNOT, cirq.CZ, cirq.SWAP, cirq.ISWAP, cirq.ISWAP ** -1], "clifford-2q")
             return g.on(a, b)
         kind = self.t.weighted([4, 3, 2, 2, 1], "2q-kind")
@@ -452,7 +459,7 @@ class Gen:
             q = inner[0]
             ops = [cirq.ry(math.pi / 8 * a).on(q), cirq.ry(math.pi / 8 * (tot - a)).on(q)]
             self.features.add("subcircuit")
-            self.features.add("subcircuit-clifford-only-as-product")
+            self.features.add("clifford-only-as-product")
             return cirq.CircuitOperation(cirq.FrozenCircuit(ops), repetitions=1 + self.t.draw(2, "sub-reps"),
                                          qubit_map={q: outer[0]})
         for _ in range(n_sub):
